@@ -255,6 +255,9 @@ class ReactionQueryReader(object):
         return radical, charge, valence
 
     def ReadAtomType(self, tree):
+        if tree[0][0] == 'AtomPrefix':
+            raise NotImplementedError("AtomTypeModify: atom prefix '%s' not "
+                                      "supported" % tree[0][1])
         assert tree[0][0] == 'Symbols'
         symbol = tree[0][1][0]
         radical, charge, valence = 0, 0, 0
